@@ -179,8 +179,32 @@ func runCheck(repo, contracts string, args []string, tier string, timeout time.D
 	kindCount := map[string]int{}
 	for _, r := range results {
 		if r.Err != "" {
-			fmt.Fprintf(os.Stderr, "engine fault in %s: %s\n", r.Name, r.Err)
-			fault = true
+			// A contract that no longer type-checks or resolves against the function (a captured
+			// variable, parameter or field it names is gone) cannot be established on this tree:
+			// every obligation of the function that discharges on the reference tree is reported.
+			n := 0
+			if !strings.HasPrefix(r.Err, "encoder fault") {
+				var ids []string
+				for id := range locked {
+					if strings.HasPrefix(id, r.Name+":") || strings.HasPrefix(id, r.Name+">") {
+						ids = append(ids, id)
+					}
+				}
+				sort.Strings(ids)
+				for _, id := range ids {
+					n++
+					total++
+					violations++
+					p := filepath.Join(replayDir(prop), sanitizeFile(id)+".txt")
+					os.WriteFile(p, []byte(fmt.Sprintf("// Replay record written by bmcvc.\n// property:   %s\n// obligation: %s\n// result:     no failing input found: the contract of %s can no longer be evaluated against the function's code, so the obligation (discharged on the reference tree) is not established\n//\n// verifier output:\n%s", prop, id, r.Name, commentOut(r.Err))), 0o644)
+					violationLines = append(violationLines, fmt.Sprintf("VIOLATION property=%s replay=%s no-failing-input-found", prop, p))
+					fmt.Printf("  obligation %s is no longer discharged: contract not evaluable: %s\n", id, firstLine(r.Err))
+				}
+			}
+			if n == 0 {
+				fmt.Fprintf(os.Stderr, "engine fault in %s: %s\n", r.Name, r.Err)
+				fault = true
+			}
 			continue
 		}
 		fnNames = append(fnNames, r.Name)
